@@ -103,7 +103,48 @@ def _sigpipe_ignored(P, cg):
     return False
 
 
+def stat_update_is_applied_before_return(ctx, tag):
+    """Stats::increment / Stats::set have changed the counter when they return: every exit is preceded by a write of stats_ in that
+    call, keyed by the key parameter.  (oomd.kills 'rises by exactly 1 per wet kill': an update that is parked for later when the lock is
+    busy shows up in a later snapshot, lumped together with others, or never.)"""
+    P, cg = ctx.prog, ctx.cg
+    LA = LockAnalysis(P, cg)
+    acc = list(LA.field_accesses("Oomd::Stats::stats_"))
+    for q in ("increment", "set"):
+        f = ctx.use(ctx.fn1("Oomd::Stats::" + q))
+        if not f.params:
+            ctx.broken("%s:stat-update-applied-before-return:%s" % (tag, q), "anchor", f.loc(), "Stats::%s has no key parameter" % q)
+            continue
+        kn = f.params[0]["name"]
+        ws = []
+        for g, i in acc:
+            if g is not f or not access_is_write(f, i, "Oomd::Stats::stats_"):
+                continue
+            x = i
+            while x is not None and f.pos_of(x) is None:
+                x = f.parent.get(x)
+            top = x
+            # the statement-level expression that holds the access names the key
+            y = top
+            while y is not None and f.parent.get(y) is not None and f.nodes[f.parent[y]]["k"] in ("bin", "call", "un", "cast", "paren") and f.pos_of(f.parent[y]) is not None:
+                y = f.parent[y]
+            if top is not None and re.search(r"\[%s\]|\(%s\)|\b%s\b" % ((re.escape(kn),) * 3), f.text(y if y is not None else top)):
+                ws.append(top)
+        ctx.counters["%s_stat_writes_%s" % (tag, q)] = len(ws)
+        ctx.floor("%s_stat_writes_%s" % (tag, q), 1, "writes of stats_[key] in Stats::%s" % q)
+        if not ws:
+            continue
+        fl = Flow(P, f, events={w: [("set", "applied")] for w in ws}, cg=cg)
+        bad = [f.loc(node) if node is not None else "end of function" for kind, node, b, parts in fl.exits()
+               if kind in ("return", "fallthrough") and not all("applied" in st.must for st in parts.values())]
+        ctx.check(not bad, "%s:stat-update-applied-before-return:%s" % (tag, q), "must_pass_through", f.loc(),
+                  "every exit of Stats::%s has written stats_[%s]" % (q, kn),
+                  "Stats::%s can return (at %s) without having updated stats_[%s]: the change is dropped or parked for later, so a snapshot taken after the "
+                  "call - oomd.kills after a kill that signalled a process - does not show it" % (q, ", ".join(bad), kn))
+
+
 def run(ctx):
+    stat_update_is_applied_before_return(ctx, "C19")
     # the accept loop ends only with the server: a failed accept() (EMFILE, ECONNABORTED, ...) is logged and retried - no break / return
     rsk0 = ctx.fn1("Oomd::Stats::runSocket")
     al = [l for l in loops(rsk0) if l["stmt"] is not None and rsk0.nodes[l["stmt"]]["k"] in ("while", "for", "do") and "statsThreadRunning_" in rsk0.text(rsk0.nodes[l["stmt"]].get("c", -1))]
@@ -202,6 +243,34 @@ def run(ctx):
         ctx.check(frs.must(t, "counted"), "slot-taken-before-handler-starts", "must_precede", rs.loc(t),
                   "thread_count_ is incremented before the handler thread exists",
                   "a handler thread can start (and finish) before it was counted")
+    # ... and a slot that was taken is handed to a handler: between the increment and the end of that iteration of the accept loop (or
+    # a return) the handler thread is created - the handler's scope guard is the only thing that gives the slot back.  A connection
+    # that is counted and then refused leaks its slot: ~Stats waits for the count to reach 0, times out and aborts.
+    acc_l = [l for l in loops(rs) if l["stmt"] is not None and any(rs.pos_of(i) is not None and (rs.pos_of(i)[0] in l["body"] or l["stmt"] in list(rs.ancestors(i))) for i in rs.calls("accept", "accept4"))]
+    if len(acc_l) == 1 and inc and thr:
+        evs = {}
+        for i in inc:
+            if i in rs.parent and rs.pos_of(rs.parent[i]) is not None:
+                par = rs.nodes[rs.parent[i]]
+                dec = par.get("op") in ("--", "-=")
+                evs.setdefault(rs.parent[i], []).append(("clear", "slot-held") if dec else ("set", "slot-held"))
+        for t in thr:
+            evs.setdefault(t, []).append(("clear", "slot-held"))
+        fsl = iter_flow(ctx, rs, acc_l[0], evs)
+        leaks = []
+        for b in back_sources(acc_l[0]):
+            for st_ in (fsl.OUT.get(b) or {}).values():
+                if "slot-held" in st_.may:
+                    leaks.append("end of an iteration (block %s)" % b)
+        for kind, node, b, parts in fsl.exits():
+            if kind in ("return", "fallthrough") and any("slot-held" in st_.may for st_ in parts.values()):
+                leaks.append(rs.loc(node) if node is not None else "end of function")
+        ctx.check(not leaks, "slot-taken-is-handed-to-a-handler", "per-iteration must_follow (set/clear tokens)", rs.loc(acc_l[0]["stmt"]),
+                  "every counted connection gets its handler thread in the same iteration",
+                  "runSocket can count a connection (thread_count_ incremented) and finish the iteration without creating its handler thread (%s): nobody gives that "
+                  "slot back, so the count never returns to 0 - ~Stats() times out after 5 s and aborts, and a slot limit fills up for good" % "; ".join(sorted(set(leaks))[:3]))
+    else:
+        ctx.broken("slot-taken-is-handed-to-a-handler", "anchor", rs.loc(), "expected one accept loop with the slot increment and the handler thread creation in runSocket")
     # the decrement: in processMsg itself or in its scope-exit closure
     dec_nodes = []      # (function, node)
     for f, i in LA.field_accesses("Oomd::Stats::thread_count_"):
